@@ -1,5 +1,7 @@
 """C03 — no free value: no operation or round trip pays out more than it debits."""
 import gen_bank as G
+import gen_hops as H
+import hops_oracles as O
 ID = "C03"
 MANIFEST = {
     "text": ("Kernel-checked theorems over the BankAccountWrapper model: every increase credits at most the amount paid, every "
@@ -41,6 +43,9 @@ def suites(rng, tier):
         out.append({"suite": "bankops", "name": "bankops-frac", "lines": b, "distribution": {"cases": m, "fractional_amounts": True}})
         k = {"quick": 1500, "thorough": 40000}[tier]
         out.append({"suite": "prefee", "name": "prefee", "lines": [gen_prefee(rng) for _ in range(k)], "distribution": {"cases": k}})
+    h = {"quick": 500, "thorough": 10000, "search": 4000}[tier]
+    out.append({"suite": "hops", "name": "hops-no-free-value", "lines": [H.gen_case(rng, max_ops=24) for _ in range(h)],
+                "distribution": {"cases": h, "note": "the same law at instruction level (real deposit / withdraw / borrow / repay handlers incl. the Token-2022 pre-fee glue): tokens received + position value never rise through an operation"}})
     return out
 
 
@@ -74,6 +79,8 @@ def nontrivial(suite, case, impl):
 def oracle(suite, case, impl):
     if suite == "prefee":
         return oracle_prefee(case, impl)
+    if suite == "hops":
+        return O.oracle_c03_instruction(O.Trace(case, impl))
     c = G.parse_case(case)
     outs = G.parse_out(impl)
     pos = {}   # (acct, bank) -> (a, l)
